@@ -107,7 +107,18 @@ def line(c):
 
 def make_ca(c):
     a = np.array(c["ca"], dtype=np.int64)
-    return a.astype(np.float64) / 10.0 if c["dtype"] == "float64" else a
+    if c["dtype"] == "float64":
+        return a.astype(np.float64) / 10.0
+    lo, hi = int(a.min()) if a.size else 0, int(a.max()) if a.size else 0
+    # the same integer states in a narrower / unsigned container when they fit
+    pick = (lo + 3 * hi + a.size) % 4
+    if pick == 1 and 0 <= lo and hi <= 255:
+        return a.astype(np.uint8)
+    if pick == 2 and -128 <= lo and hi <= 127:
+        return a.astype(np.int8)
+    if pick == 3:
+        return np.asfortranarray(a.astype(np.int32))       # column-major layout
+    return a
 
 
 def call(c):
